@@ -404,6 +404,62 @@ def rule_hitwindow(ctx):
             yield o
 
 
+def rule_dhdform(ctx):
+    """directional_hamming_distance: every reference interval contributes its duration minus its longest piece, the
+    pieces being cut by the estimated boundaries that fall inside it and bounded by its *own* start and end; the sum
+    is divided by the reference span.  (A perfect estimate cuts every interval into one piece: distance 0.)"""
+    R = "C02.DHDFORM"
+    f = ctx.program.func("chord.directional_hamming_distance", R)
+    s = ctx.S.get(f.qual)
+    main = [r for r in s.returns if not is_lit(r.term)]
+    need(len(main) == 1, R, "directional_hamming_distance: computed return not found")
+    t = main[0].term
+    ref = tm.param(f.params[0])
+    # a segment-wise ufunc.reduceat over indices taken from the interval starts alone runs each segment up to the next
+    # start: whatever lies between two reference intervals (a gap) is charged to the earlier one
+    for x in tm.walk(t):
+        if x.op == "call" and (call_name(x) or "").endswith(".reduceat") and len(x.a[1]) >= 2:
+            idx = x.a[1][1]
+            cols = set()
+            for z in tm.walk(idx):
+                if z.op == "sub" and z.a[0] is ref and z.a[1].op == "tuple" and len(z.a[1].a) == 2 and z.a[1].a[1].op == "const":
+                    cols.add(int(z.a[1].a[1].a[0]))
+            if cols == {0}:
+                yield ob(R, f, "chord.directional_hamming_distance:pieces-bounded-by-own-interval", False, "the per-interval maximum is %s over segments that start at each reference start and run to the *next* start: with a gap between two reference intervals the pieces of the gap are counted for the earlier interval" % call_name(x), node=main[0].node)
+                return
+    need(t.op == "bin" and t.a[0] == "/", R, "directional_hamming_distance: result is not <sum of contributions> / <reference span>")
+    num, den = t.a[1], t.a[2]
+    span = den.op == "bin" and den.a[0] == "-" and tm.show(den.a[1], 3).replace(" ", "") in ("reference_intervals[(-1,1)]",) and tm.show(den.a[2], 3).replace(" ", "") in ("reference_intervals[(0,0)]",)
+    yield ob(R, f, "chord.directional_hamming_distance:normaliser", span, "the sum is divided by the reference span (last end - first start)")
+    need(num.op == "call" and call_name(num) in ("builtins.sum", "np.sum") and num.a[1] and num.a[1][0].op == "comp" and len(num.a[1][0].a[2]) == 1 and num.a[1][0].a[2][0] is ref, R, "directional_hamming_distance: the contributions are not accumulated in one pass over the reference intervals (vectorised forms are not read)")
+    comp = num.a[1][0]
+    row = tm.mk("iter", ref, comp.a[4])
+    st, en = tm.proj(row, 0), tm.proj(row, 1)
+    elt = comp.a[1]
+    good_c = elt.op == "bin" and elt.a[0] == "-" and elt.a[1].op == "bin" and elt.a[1].a[0] == "-" and elt.a[1].a[1] is en and elt.a[1].a[2] is st and elt.a[2].op == "call" and call_name(elt.a[2]) == "np.max" and elt.a[2].a[1][0].op == "call" and call_name(elt.a[2].a[1][0]) == "np.diff"
+    yield ob(R, f, "chord.directional_hamming_distance:contribution", good_c, "each reference interval contributes (end - start) - max(diff(cut points))")
+    hs = [x for x in tm.walk(elt) if x.op == "call" and call_name(x) == "np.hstack" and x.a[1] and x.a[1][0].op in ("list", "tuple")]
+    good_b = False
+    good_f = False
+    if len(hs) == 1:
+        parts = list(hs[0].a[1][0].a)
+        good_b = len(parts) == 3 and parts[0] is st and parts[2] is en
+        if len(parts) == 3 and parts[1].op == "sub":
+            mask = parts[1].a[1]
+            from .. import finmodel
+
+            # est_ts[(est_ts >= start) & (est_ts < end)]
+            from .c14 import _elementwise
+
+            e = _elementwise(mask)
+            E = parts[1].a[0]
+            want = tm.boolop("and", [tm.cmp("<=", st, E), tm.cmp("<", E, en)])
+            eq = finmodel.equivalent(e, want)
+            good_f = bool(eq) and "estimated_intervals" in tm.params_of(E) and "reference_intervals" not in tm.params_of(E)
+    yield ob(R, f, "chord.directional_hamming_distance:pieces-bounded-by-own-interval", good_b, "the cut points of an interval are [start, <estimated boundaries inside>, end] of that very interval")
+    yield ob(R, f, "chord.directional_hamming_distance:inside-filter", good_f, "estimated boundaries b with start <= b < end are the inner cut points")
+
+
 def rule_occthresh(ctx):
     """occurrence_FPR keeps a (reference, estimate) pair when its best cell reaches the threshold: max(s) >= thres,
     closed - with thres = 1.0 a perfect estimate has max(s) == 1 for its own pattern and must still count."""
@@ -437,6 +493,7 @@ def rule_occthresh(ctx):
 
 
 RULES = [
+    ("C02.DHDFORM", 3, rule_dhdform),
     ("C02.OCCTHRESH", 1, rule_occthresh),
     ("C02.VELFIT", 1, common.shared("c01", "rule_valueden", "C02.VELFIT", keep=lambda o: o.construct.startswith("transcription_velocity.match_notes:"))),
     ("C02.TRIMFORM", 8, rule_trimform),
